@@ -220,6 +220,8 @@ def r10_5(prog, rep):
             vn = SX.add(v, SX.Lin(0))
             if v == W or (vn is not None and vn == W):
                 return "new"
+            if vn == SX.Lin(0, {f"{old_slice}.stop": 1, f"{old_slice}.start": -1}):
+                return "old"
             return f"`{txt}`"
 
         for c in conj:
